@@ -92,8 +92,12 @@ def replay(pid, path, seed):
         v = rp["observed"]["argv"]
         with cli.Sandbox(pid, "argv") as sb:
             sb.write("x", b"not a kestrel file")
-            r = cli.kestrel(v, env={}, stdin=b"", timeout=30, cwd=sb.dir)
-        ev = {"ev": "argv", "id": "replay", "argv": v, "exit": r.rc, "errline": r.has_error_line, "timed_out": r.timed_out, "stderr": r.err_text[-200:]}
+            streams = rp["observed"].get("streams", "normal")
+            faulty = streams != "normal"
+            r = cli.kestrel(v, env={"KESTREL_PASSWORD": "pw9", "KESTREL_NEW_PASSWORD": "pw10"} if faulty else {}, stdin=b"streamkey\n" if faulty else b"",
+                            timeout=30, cwd=sb.dir, stdout_path="/dev/full" if streams == "stdout_full" else None,
+                            stderr_path="/dev/full" if streams == "stderr_full" else None)
+        ev = {"ev": "argv", "id": "replay", "argv": v, "streams": streams, "exit": r.rc, "errline": r.has_error_line, "timed_out": r.timed_out, "stderr": r.err_text[-200:]}
         checks_cli.validate_events_argv(rep, pid, [ev])
         rep.sample(ev)
     else:
